@@ -362,6 +362,9 @@ func (st *StateDB) deleteValidator(val *Validator) {
 	val.deleted = true
 	st.deleteStakingData(val.MainAddress(), validatorFlag)
 	st.validatorIndex.Delete(val.MainAddress())
+	// the record is gone from the trie: do not keep it in memory, or a later re-creation would journal it as
+	// "removed but not yet finalised" and a revert would put it (and its index entry) back
+	st.validatorObjects.Delete(val.MainAddress())
 }
 
 func (st *StateDB) getValidator(mainAddress common.Address) *Validator {
